@@ -225,6 +225,8 @@ class Interp:
         self.depth = 0
         self.fn_stack = []
         self.wrap_uses = 0
+        self.mark_wraps = False
+        self.atan2_uses = 0
 
     # ------------------------------------------------------------------------------------ helpers
     def where(self, node):
@@ -482,7 +484,7 @@ class Interp:
         if base.ndim == 1:
             if isinstance(idx, slice):
                 n = len(base.data[idx])
-                base.data[idx] = [as_poly(x) for x in self.flat_values(v, n, node)]
+                base.data[idx] = [x if isinstance(x, Quot) else as_poly(x) for x in self.flat_values(v, n, node)]
             else:
                 base.data[idx] = as_poly(self.scalar(v, node))
             return
@@ -639,8 +641,10 @@ class Interp:
         raise self.unsupported("unary operator", n)
 
     def neg(self, v, node):
+        if isinstance(v, Pose):
+            return Pose(v.cls, [self.neg(x, node) for x in v.data])
         if isinstance(v, Arr):
-            return v.map(lambda x: -x)
+            return v.map(lambda x: self.neg(x, node))
         if isinstance(v, Poly):
             return -v
         if isinstance(v, Quot):
@@ -763,6 +767,8 @@ class Interp:
         if not ok:
             self.events.append(("noncongruent-wrap", "modulus %s at %s" % (m.short(40), self.where(node))))
         self.wrap_uses += 1
+        if self.mark_wraps:
+            return w.inner + w.offset + Poly.var("WRAP")
         return w.inner + w.offset
 
     def arith(self, op, a, b, node):
@@ -770,6 +776,11 @@ class Interp:
             a = self.to_arr(a, node)
         if isinstance(b, (list, tuple)) and isinstance(a, Arr):
             b = self.to_arr(b, node)
+        if isinstance(a, Pose) or isinstance(b, Pose):
+            # numpy keeps the ndarray subclass for element-wise arithmetic
+            cls = a.cls if isinstance(a, Pose) else b.cls
+            r = self.arith(op, Arr(a.data, a.ndim) if isinstance(a, Arr) else a, Arr(b.data, b.ndim) if isinstance(b, Arr) else b, node)
+            return Pose(cls, r.data) if isinstance(r, Arr) and r.ndim == 1 else r
         if isinstance(a, Arr) or isinstance(b, Arr):
             if isinstance(a, Arr) and isinstance(b, Arr):
                 if a.ndim == 2 and b.ndim == 1 and a.shape[1] == b.shape[0]:
@@ -897,7 +908,7 @@ class Interp:
                 raise PathRaise("IndexError", self.where(node))
         if v.ndim == 1:
             if isinstance(idx, slice):
-                r = Arr(v.data[idx], 1)
+                r = Pose(v.cls, v.data[idx]) if isinstance(v, Pose) else Arr(v.data[idx], 1)
                 r.is_view = True
                 return r
             if isinstance(idx, int):
@@ -1331,6 +1342,7 @@ class Interp:
 
     def atan2(self, y, x, node):
         y, x = self.scalar(y, node), self.scalar(x, node)
+        self.atan2_uses += 1
         for name in sorted(poly.R.angles):
             for k in (1, -1):
                 ang = Poly.var(name).scale(k)
